@@ -52,17 +52,36 @@ Definition float_dec (r : pstr) : option (Z * Z) :=
       option_map (fun e => (m2, (e - nf)%Z)) (dec_exponent rest2)
   | _ => option_map (fun e => (m1, e)) (dec_exponent rest1)
   end.
-Definition dec_ltb_Z (d : Z * Z) (s : Z) : bool :=
-  let (m, e) := d in
-  if (0 <=? e)%Z then (m * 10 ^ e <? s)%Z else (m <? s * 10 ^ (- e))%Z.
-Definition dec_eqb_Z (d : Z * Z) (s : Z) : bool :=
-  let (m, e) := d in
-  if (0 <=? e)%Z then (m * 10 ^ e =? s)%Z else (m =? s * 10 ^ (- e))%Z.
-(* float < int and float == int (exact whenever |s| <= 2^53, see the report) *)
+(* The IEEE binary64 number nearest to m * 10^e (round half to even, gradual underflow): (q, k) stands
+   for q * 2^k.  repr() round-trips, so this is exactly the float the literal denotes. *)
+Definition to_binary64 (m e : Z) : Z * Z :=
+  if (m <=? 0)%Z then (0, 0)%Z else
+  let n := if (0 <=? e)%Z then (m * 10 ^ e)%Z else m in
+  let d := if (0 <=? e)%Z then 1%Z else (10 ^ (- e))%Z in
+  let scaled (k : Z) : Z * Z :=                (* n / (d * 2^k) as a fraction *)
+    if (0 <=? k)%Z then (n, d * 2 ^ k)%Z else (n * 2 ^ (- k), d)%Z in
+  let k0 := (Z.log2 n - Z.log2 d - 52)%Z in
+  let q0 := (let (a, b) := scaled k0 in a / b)%Z in
+  let k1 := if (2 ^ 53 <=? q0)%Z then (k0 + 1)%Z else if (q0 <? 2 ^ 52)%Z then (k0 - 1)%Z else k0 in
+  let k := Z.max k1 (-1074) in
+  let (a, b) := scaled k in
+  let q := (a / b)%Z in
+  let r := (a mod b)%Z in
+  let q' := if (b <? 2 * r)%Z then (q + 1)%Z
+            else if (2 * r =? b)%Z then (if Z.odd q then q + 1 else q)%Z
+            else q in
+  (q', k).
+Definition bin_ltb_Z (x : Z * Z) (s : Z) : bool :=
+  let (q, k) := x in
+  if (0 <=? k)%Z then (q * 2 ^ k <? s)%Z else (q <? s * 2 ^ (- k))%Z.
+Definition bin_eqb_Z (x : Z * Z) (s : Z) : bool :=
+  let (q, k) := x in
+  if (0 <=? k)%Z then (q * 2 ^ k =? s)%Z else (q =? s * 2 ^ (- k))%Z.
+(* float < int and float == int, exactly as Python compares them (inf is neither below nor equal) *)
 Definition float_ltb_Z (r : pstr) (s : Z) : bool :=
-  match float_dec r with Some d => dec_ltb_Z d s | None => false end.
+  match float_dec r with Some (m, e) => bin_ltb_Z (to_binary64 m e) s | None => false end.
 Definition float_eqb_Z (r : pstr) (s : Z) : bool :=
-  match float_dec r with Some d => dec_eqb_Z d s | None => false end.
+  match float_dec r with Some (m, e) => bin_eqb_Z (to_binary64 m e) s | None => false end.
 
 (* configuration values that behave as numbers: int, and bool (True == 1) *)
 Definition thr_num (j : jv) : option Z :=
@@ -234,9 +253,36 @@ Definition thresholds (cfg : jv) (kt : key_type) : res (jv * jv) :=
   do em <- cfg_item cfg (s2p "weak_key_size_ec_medium");;
   Ok (match kt with DSA => (dh, dm) | RSA => (rh, rm) | EC => (eh, em) end).
 
-(* key_size < size, for a key_size that is not a str.
-   UNMODELLED: a list-valued key size against a list-valued threshold (Python compares the lists);
-   every other combination with a non-numeric threshold raises TypeError as modelled. *)
+(* a < b for str *)
+Fixpoint pstr_ltb (a b : pstr) : bool :=
+  match a, b with
+  | _, [] => false
+  | [], _ :: _ => true
+  | x :: a', y :: b' => if (x <? y)%N then true else if (x =? y)%N then pstr_ltb a' b' else false
+  end.
+
+(* literal_value < configuration value: numbers, str against str, list against list (first pair of
+   unequal elements decides, else the shorter list is smaller); anything else is a TypeError *)
+Fixpoint pv_lt_jv (v : pyval) (j : jv) : res bool :=
+  match v, j with
+  | PInt z, (JInt _ | JBool _) =>
+      match thr_num j with Some s => Ok (z <? s)%Z | None => Raise TypeError end
+  | PFloat r _, (JInt _ | JBool _) =>
+      match thr_num j with Some s => Ok (float_ltb_Z r s) | None => Raise TypeError end
+  | PStr a, JStr b => Ok (pstr_ltb a b)
+  | PList l, JList l' =>
+      (fix go (l1 : list pyval) (l2 : list jv) : res bool :=
+         match l1, l2 with
+         | [], [] => Ok false
+         | [], _ :: _ => Ok true
+         | _ :: _, [] => Ok false
+         | u :: l1', w :: l2' => if pv_eq_jv u w then go l1' l2' else pv_lt_jv u w
+         end) l l'
+  | _, _ => Raise TypeError
+  end.
+
+(* key_size < size, for a key_size that is not a str.  When the comparison succeeds against a
+   non-numeric threshold, the message's "%d" % size raises the TypeError instead. *)
 Definition lt_threshold (k : pyval) (size : jv) : res bool :=
   match thr_num size with
   | Some s =>
@@ -245,7 +291,7 @@ Definition lt_threshold (k : pyval) (size : jv) : res bool :=
       | PFloat r _ => Ok (float_ltb_Z r s)
       | _ => Raise TypeError
       end
-  | None => Raise TypeError
+  | None => do b <- pv_lt_jv k size;; if b then Raise TypeError else Ok false
   end.
 
 Definition key_issue (kt : key_type) (lvl : rank) (size : jv) : rissue :=
@@ -273,15 +319,14 @@ Definition key_size_of (c : ctx) (kw : pstr) (pos : nat) : res pyval :=
   else do b <- get_call_arg_at_position c pos;;
        if truthy b then Ok b else Ok (PInt 2048).
 
-(* written once, as data *)
-Definition curve_key_sizes : list (pstr * Z) :=
-  [(s2p "SECT571K1", 571%Z); (s2p "SECT571R1", 570%Z); (s2p "SECP521R1", 521%Z);
-   (s2p "BrainpoolP512R1", 512%Z); (s2p "SECT409K1", 409%Z); (s2p "SECT409R1", 409%Z);
-   (s2p "BrainpoolP384R1", 384%Z); (s2p "SECP384R1", 384%Z); (s2p "SECT283K1", 283%Z);
-   (s2p "SECT283R1", 283%Z); (s2p "BrainpoolP256R1", 256%Z); (s2p "SECP256K1", 256%Z);
-   (s2p "SECP256R1", 256%Z); (s2p "SECT233K1", 233%Z); (s2p "SECT233R1", 233%Z);
-   (s2p "SECP224R1", 224%Z); (s2p "SECP192R1", 192%Z); (s2p "SECT163K1", 163%Z);
-   (s2p "SECT163R2", 163%Z)].
+(* curve_key_sizes of the plugin: written once, as data *)
+Definition curve_table : list (string * Z) :=
+  [("SECT571K1", 571); ("SECT571R1", 570); ("SECP521R1", 521); ("BrainpoolP512R1", 512);
+   ("SECT409K1", 409); ("SECT409R1", 409); ("BrainpoolP384R1", 384); ("SECP384R1", 384);
+   ("SECT283K1", 283); ("SECT283R1", 283); ("BrainpoolP256R1", 256); ("SECP256K1", 256);
+   ("SECP256R1", 256); ("SECT233K1", 233); ("SECT233R1", 233); ("SECP224R1", 224);
+   ("SECP192R1", 192); ("SECT163K1", 163); ("SECT163R2", 163)]%Z.
+Definition curve_key_sizes : list (pstr * Z) := map (fun kv => (s2p (fst kv), snd kv)) curve_table.
 
 (* curve = get_call_arg_value("curve") or (len(call_args) > 0 and call_args[0]);  None = Python False *)
 Definition ec_curve (c : ctx) : res (option pyval) :=
